@@ -1,6 +1,8 @@
 package main
 
 import (
+	"strconv"
+	"strings"
 	"bytes"
 	"fmt"
 	"math/rand"
@@ -37,7 +39,71 @@ func (w *World) end(h *StoreH, ev Ev, ft *memfile.Fault) {
 	w.emit(ev)
 }
 
-func (w *World) coll(h *StoreH, name string) *gkvlite.Collection { return h.St.GetCollection(name) }
+func (w *World) coll(h *StoreH, name string) *gkvlite.Collection {
+	if h.Priv != nil {
+		if name == h.PrivName {
+			return h.Priv
+		}
+		return nil
+	}
+	return h.St.GetCollection(name)
+}
+
+// NewPrivate: MakePrivateCollection on h's store.
+func (w *World) NewPrivate(h *StoreH, name string) *StoreH {
+	var c *gkvlite.Collection
+	var cmp gkvlite.KeyCompare
+	if Reversed(name, w.cmpByName()) || w.rng.Intn(2) == 0 {
+		cmp = w.compareFor(name) // nil every other time: the documented default
+	}
+	if !w.guard("MakePrivateCollection", "C12", func() { c = h.St.MakePrivateCollection(cmp) }) {
+		return nil
+	}
+	p := &StoreH{ID: w.nextStore, St: h.St, Priv: c, PrivName: name}
+	w.nextStore++
+	w.stores[p.ID] = p
+	w.emit(Ev{"e": "Private", "s": h.ID, "p": p.ID, "c": w.U.NameID(name)})
+	return p
+}
+
+// DropPrivate forgets a private collection (the library has no call for it).
+func (w *World) DropPrivate(p *StoreH) {
+	delete(w.stores, p.ID)
+	w.emit(Ev{"e": "Close", "s": p.ID, "io": w.ioOf(nil, false)})
+}
+
+// keys and values in the shapes the *Any calls accept
+type byteAble []byte
+
+func (b byteAble) ToBa() []byte { return []byte(b) }
+
+func (w *World) anyOf(b []byte) interface{} {
+	if n, err := strconv.Atoi(string(b)); err == nil && strconv.Itoa(n) == string(b) {
+		return n
+	}
+	if parts := strings.Split(string(b), ","); len(parts) > 1 {
+		ints := make([]int, 0, len(parts))
+		ok := true
+		for _, p := range parts {
+			n, err := strconv.Atoi(p)
+			if err != nil || strconv.Itoa(n) != p {
+				ok = false
+				break
+			}
+			ints = append(ints, n)
+		}
+		if ok {
+			return ints
+		}
+	}
+	switch w.rng.Intn(3) {
+	case 0:
+		return string(b)
+	case 1:
+		return byteAble(b)
+	}
+	return b
+}
 
 func (w *World) SetColl(h *StoreH, name string) bool {
 	w.begin(h, nil)
@@ -78,7 +144,10 @@ func (w *World) SetKV(h *StoreH, name string, key, val []byte, prio int32, useSe
 	var err error
 	w.begin(h, ft)
 	ok := w.guard("Set", "C07", func() {
-		if useSet {
+		if useSet && val != nil && w.rng.Intn(2) == 0 {
+			ev["any"] = true
+			err = c.SetAny(w.anyOf(key), w.anyOf(val))
+		} else if useSet {
 			err = c.Set(key, val)
 		} else {
 			it := &gkvlite.Item{Key: key, Priority: prio}
@@ -118,7 +187,14 @@ func (w *World) Del(h *StoreH, name string, key []byte, ft *memfile.Fault) bool 
 	var res bool
 	var err error
 	w.begin(h, ft)
-	if !w.guard("Delete", "C07", func() { res, err = c.Delete(key) }) {
+	useAny := ft == nil && w.rng.Intn(5) == 0
+	if !w.guard("Delete", "C07", func() {
+		if useAny {
+			res, err = c.DeleteAny(w.anyOf(key))
+		} else {
+			res, err = c.Delete(key)
+		}
+	}) {
 		return false
 	}
 	ev["res"], ev["err"] = res, err != nil
@@ -140,11 +216,38 @@ func (w *World) Get(h *StoreH, name string, key []byte, wv bool, ft *memfile.Fau
 	ev := Ev{"e": "Get", "s": h.ID, "c": w.U.NameID(name), "k": w.U.KeyID(key, rev), "wv": wv}
 	var it *gkvlite.Item
 	var err error
+	// Get() / GetAny(): the value alone.  Not with reference-counting callbacks
+	// (Get cannot give the reference back) nor with slab-like values (Val is
+	// only the head chunk then)
+	if wv && ft == nil && c != nil && !w.slab() && w.cbMask&(cbAddRef|cbDecRef) == 0 && w.rng.Intn(3) == 0 {
+		var val []byte
+		ev["e"] = "GetVal"
+		useAny := w.rng.Intn(2) == 0
+		w.begin(h, nil)
+		if !w.guard("Get", "C07", func() {
+			if useAny {
+				val, err = c.GetAny(w.anyOf(key))
+			} else {
+				val, err = c.Get(key)
+			}
+		}) {
+			return false
+		}
+		ev["v"], ev["vl"], ev["err"] = w.U.ValID(val, false), len(val), err != nil
+		w.end(h, ev, nil)
+		return true
+	}
 	w.begin(h, ft)
 	if !w.guard("GetItem", "C07", func() { it, err = c.GetItem(key, wv) }) {
 		return false
 	}
-	ev["res"], ev["err"] = w.itemRes(name, it), err != nil
+	if it != nil && w.rng.Intn(4) == 0 {
+		// Item.Copy(): a shallow copy with the same key, value and priority
+		ev["res"] = w.itemRes(name, it.Copy())
+	} else {
+		ev["res"] = w.itemRes(name, it)
+	}
+	ev["err"] = err != nil
 	w.handOut(h, c, it)
 	w.end(h, ev, ft)
 	return true
@@ -156,7 +259,14 @@ func (w *World) Exist(h *StoreH, name string, key []byte) bool {
 	ev := Ev{"e": "Exist", "s": h.ID, "c": w.U.NameID(name), "k": w.U.KeyID(key, rev)}
 	var res bool
 	w.begin(h, nil)
-	if !w.guard("Exist", "C07", func() { res = c.Exist(key) }) {
+	useAny := w.rng.Intn(4) == 0
+	if !w.guard("Exist", "C07", func() {
+		if useAny {
+			res = c.ExistAny(w.anyOf(key))
+		} else {
+			res = c.Exist(key)
+		}
+	}) {
 		return false
 	}
 	ev["res"] = res
@@ -420,6 +530,7 @@ func (w *World) Visit(h *StoreH, name string, asc bool, api string, tid int, wv 
 	evictIn := c != nil && !h.RO && w.rng.Intn(4) == 0
 	ev["evictin"] = evictIn
 	add := func(i *gkvlite.Item, d int64) bool {
+		w.lent(i)
 		e := w.itemEv(name, i)
 		e["d"] = d
 		e["td"] = -1
@@ -570,7 +681,12 @@ func (w *World) Snapshot(h *StoreH) *StoreH {
 
 func (w *World) Close(h *StoreH) bool {
 	w.begin(h, nil)
-	if !w.guard("Close", "C10", func() { h.St.Close() }) {
+	if !w.guard("Close", "C10", func() {
+		h.St.Close()
+		if w.rng.Intn(4) == 0 {
+			h.St.Close() // closing twice is harmless
+		}
+	}) {
 		return false
 	}
 	delete(w.stores, h.ID)
